@@ -693,6 +693,10 @@ func (tx *Tx) prefixScanByHintBPTSparseIdx(bucket string, prefix []byte, offsetN
 				es = append(es, item)
 				if len(es) == limitNum {
 					off = voff
+					// the page is full: release the data file like every other
+					// way out of this loop does (a descriptor, or in MMap mode a
+					// mapping, leaked per paged scan otherwise)
+					df.rwManager.Close()
 					return es, off, nil
 				}
 			} else {
@@ -740,6 +744,10 @@ func (tx *Tx) prefixSearchScanByHintBPTSparseIdx(bucket string, prefix []byte, r
 				es = append(es, item)
 				if len(es) == limitNum {
 					off = voff
+					// the page is full: release the data file like every other
+					// way out of this loop does (a descriptor, or in MMap mode a
+					// mapping, leaked per paged scan otherwise)
+					df.rwManager.Close()
 					return es, off, nil
 				}
 			} else {
